@@ -10,6 +10,7 @@ import (
 	"strings"
 	"time"
 
+	"github.com/elastos/Elastos.ELA/blockchain"
 	"github.com/elastos/Elastos.ELA/common"
 	"github.com/elastos/Elastos.ELA/common/config"
 	"github.com/elastos/Elastos.ELA/core/types"
@@ -27,7 +28,8 @@ import (
 //	deliverc <block>     (same as deliver, with a dummy non-nil block confirmation; POW consensus mode only)
 //	submit <tx>          → ok | err
 //	irr <lih> <dpos> <revertStart>
-//	obs <q>*             u<txid> a<addr> t<txid> p c h
+//	restart              close and reopen the node on its data directory → ok <tipHeight> <tipId>
+//	obs <q>*             u<txid> a<addr> b<addr> (Ledger.GetAmount) t<txid> p c h
 type Sim struct {
 	N        *Node
 	Maturity uint32
@@ -70,12 +72,8 @@ func (s *Sim) Close() {
 	}
 }
 
-func (s *Sim) reset() {
-	s.Close()
-	s.seq++
-	s.dir = filepath.Join(tmpBase(), fmt.Sprintf("%s-%d-%d", s.Name, os.Getpid(), s.seq))
-	os.RemoveAll(s.dir)
-	n, err := NewNode(s.dir, Options{CoinbaseMaturity: s.Maturity, Tweak: func(p *config.Configuration) {
+func (s *Sim) options() Options {
+	return Options{CoinbaseMaturity: s.Maturity, Tweak: func(p *config.Configuration) {
 		if s.GuardFrom != 0 {
 			p.CRCOnlyDPOSHeight = s.GuardFrom
 		}
@@ -89,7 +87,15 @@ func (s *Sim) reset() {
 			p.PowConfiguration.TargetTimespan = 10 * time.Second
 			p.PowConfiguration.TargetTimePerBlock = 1 * time.Second
 		}
-	}})
+	}}
+}
+
+func (s *Sim) reset() {
+	s.Close()
+	s.seq++
+	s.dir = filepath.Join(tmpBase(), fmt.Sprintf("%s-%d-%d", s.Name, os.Getpid(), s.seq))
+	os.RemoveAll(s.dir)
+	n, err := NewNode(s.dir, s.options())
 	if err != nil {
 		panic("harness: new node: " + err.Error())
 	}
@@ -176,6 +182,13 @@ func (s *Sim) obs1(q string) string {
 			ss[i] = fmt.Sprintf("%s:%d:%d", short(u.TxID), u.Index, int64(u.Value))
 		}
 		return strings.Join(ss, ",")
+	case 'b': // Ledger.GetAmount
+		no, _ := strconv.ParseInt(id, 16, 64)
+		v, err := blockchain.DefaultLedger.GetAmount(n.Addr(int(no)))
+		if err != nil {
+			return "err"
+		}
+		return strconv.FormatInt(int64(v), 10)
 	case 't':
 		tx := n.TxByID(id)
 		if tx == nil {
@@ -211,6 +224,13 @@ func (s *Sim) Exec(t []string) string {
 	case "reset":
 		s.reset()
 		return "ok"
+	case "restart":
+		n, err := s.N.Reopen(s.options())
+		if err != nil {
+			panic("harness: restart: " + err.Error())
+		}
+		s.N = n
+		return "ok " + s.TipLine()
 	case "init":
 		if strings.Join(t, " ") != s.InitLine() {
 			return "bad-init"
